@@ -199,16 +199,30 @@ OneEntryPerRequest(inputIds, entryIds) ==        \* inputIds: sequence of ids; e
 
 -----------------------------------------------------------------------------
 (* C16: the part of a result that must not depend on the other requests of the batch.                               *)
-(* core = [found, reason, route, mode, metric, hasZA, za, rx, rxRev, nm]; the spectrum family of reasons and nm are  *)
+(* core = [found, reason, route, routeRev, mode, metric, hasZA, za, rx, rxRev, nm, hasRow, row]; the spectrum family   *)
+(* of reasons and nm are                                                                                              *)
 (* the only things allowed to depend on history.                                                                     *)
 PreSpectrum(reason) == IF reason \in NoSpectrumFamily THEN "" ELSE reason
 CloseRx(a, b) == \A k \in MetricKeys : IF Special(a[k]) \/ Special(b[k]) THEN a[k] = b[k] ELSE Within(a[k], b[k], EqTol)
+(* The CSV row is one more reported view.  Ends, transponder, library figures, route, forward and reverse metrics     *)
+(* never depend on history; bandwidth / pass flag / pair count / cost are blank for a request blocked in spectrum      *)
+(* assignment, so they are compared when neither run blocked it there; the labels are slots.                          *)
+SameRow(a, b) ==
+    (a.hasRow /\ b.hasRow) =>
+        LET x == a.row  y == b.row IN
+        /\ x.src = y.src /\ x.dst = y.dst /\ x.type = y.type /\ x.mode = y.mode /\ x.path = y.path
+        /\ x.bitrate = y.bitrate /\ x.thr = y.thr /\ x.baud = y.baud /\ x.power = y.power
+        /\ x.m = y.m /\ x.rev = y.rev
+        /\ (a.reason \notin NoSpectrumFamily /\ b.reason \notin NoSpectrumFamily) =>
+               (x.bw = y.bw /\ x.passf = y.passf /\ x.nbtsp = y.nbtsp /\ x.cost = y.cost)
 SameCore(a, b) ==
     /\ PreSpectrum(a.reason) = PreSpectrum(b.reason)
     /\ a.route = b.route
+    /\ a.routeRev = b.routeRev       \* the elements the reverse direction was propagated through
     /\ a.mode = b.mode
     /\ a.metric = b.metric           \* what the response states (centi-units): identical
     /\ a.hasZA = b.hasZA /\ a.za = b.za
     /\ CloseRx(a.rx, b.rx) /\ CloseRx(a.rxRev, b.rxRev)
+    /\ SameRow(a, b)
 SameSlots(a, b) == a.nm = b.nm /\ (a.reason \in NoSpectrumFamily) = (b.reason \in NoSpectrumFamily)
 ==============================================================================
